@@ -1,3 +1,430 @@
 package main
 
-func purMain(args []string) { panic("not yet") }
+// C07 — view functions have no observable side effects. Every row of the table printed by
+// spec/lang/Purity.tla (operation x root x path x site) is rendered as the body of a view function,
+// a view method or a pre-/post-condition inside a contract P. Deploying P runs the real checker:
+// rejected -> recorded, nothing to run. Accepted -> a transaction calls P.run(acct) on the interpreter
+// and on the VM; P.run snapshots every pre-existing value before and after the view call, the host
+// records register writes and events. The driver only records; checks/lang.py judges.
+
+import (
+	"encoding/json"
+	"fmt"
+	"reflect"
+	"runtime"
+	"strings"
+
+	"github.com/onflow/cadence/common"
+	"github.com/onflow/cadence/sema"
+
+	"verifharness/host"
+	"verifharness/util"
+)
+
+type PCase struct {
+	ID     int    `json:"id"`
+	Op     string `json:"op"`
+	TT     string `json:"tt"`
+	Root   string `json:"root"`
+	Path   string `json:"path"`
+	Site   string `json:"site"`
+	Effect string `json:"effect"`
+}
+
+type PRun struct {
+	Engine string   `json:"engine"`
+	Class  string   `json:"class"`
+	Before string   `json:"before"`
+	After  string   `json:"after"`
+	Events []string `json:"events"`
+	Writes int      `json:"writes"`
+	Err    string   `json:"err,omitempty"`
+}
+
+type PResult struct {
+	ID       int      `json:"id"`
+	Accepted bool     `json:"accepted"`
+	Purity   []string `json:"purity"` // purity errors reported by the checker
+	Other    []string `json:"other"`  // other checker errors
+	Fixture  string   `json:"fixture,omitempty"`
+	Runs     []PRun   `json:"runs"`
+	Body     string   `json:"body"`
+	Src      string   `json:"src,omitempty"`
+}
+
+var purTypes = map[string]string{"S": "S", "A": "[Int]", "D": "{String: [Int]}"}
+
+// operation templates: %s is the receiver expression; expr = it is an expression (yields a value)
+type opTmpl struct {
+	tmpl   string
+	expr   bool
+	method string // for bound-function paths: method name and argument list
+	args   string
+}
+
+var opTmpls = map[string]opTmpl{
+	"assignOwnField":   {"self.hn = 1", false, "", ""},
+	"callImpure":       {"%s.setX(1)", true, "setX", "1"},
+	"callEntitled":     {"%s.mset(1)", true, "mset", "1"},
+	"callView":         {"%s.getX()", true, "getX", ""},
+	"fieldAppend":      {"%s.arr.append(9)", false, "", ""},
+	"fieldDictAppend":  {"%s.d[\"a\"]!.append(9)", false, "", ""},
+	"indexAssign":      {"%s[0] = 9", false, "", ""},
+	"append":           {"%s.append(9)", false, "append", "9"},
+	"appendAll":        {"%s.appendAll([9])", false, "appendAll", "[9]"},
+	"insert":           {"%s.insert(at: 0, 9)", false, "insert", "at: 0, 9"},
+	"remove":           {"%s.remove(at: 0)", true, "remove", "at: 0"},
+	"removeFirst":      {"%s.removeFirst()", true, "removeFirst", ""},
+	"removeLast":       {"%s.removeLast()", true, "removeLast", ""},
+	"swapElem":         {"var t = 9\n%s[0] <-> t", false, "", ""},
+	"reverse":          {"%s.reverse()", true, "reverse", ""},
+	"concat":           {"%s.concat([1])", true, "concat", "[1]"},
+	"slice":            {"%s.slice(from: 0, upTo: 1)", true, "slice", "from: 0, upTo: 1"},
+	"contains":         {"%s.contains(1)", true, "contains", "1"},
+	"length":           {"%s.length", true, "", ""},
+	"filterView":       {"%s.filter(view fun (x: Int): Bool { return true })", true, "", ""},
+	"mapImpure":        {"%s.map(fun (x: Int): Int { P.gI = 7; return x })", true, "", ""},
+	"dictAssign":       {"%s[\"a\"] = [9]", false, "", ""},
+	"dictInsert":       {"%s.insert(key: \"b\", [9])", true, "insert", "key: \"b\", [9]"},
+	"dictRemove":       {"%s.remove(key: \"a\")", true, "remove", "key: \"a\""},
+	"dictNestedAppend": {"%s[\"a\"]!.append(9)", false, "", ""},
+	"dictKeys":         {"%s.keys", true, "", ""},
+	"forEachKeyImpure": {"%s.forEachKey(fun (k: String): Bool { P.gI = 9; return true })", false, "", ""},
+	"assignGlobal":     {"P.gI = 5", false, "", ""},
+	"callImpureFree":   {"P.bump()", true, "", ""},
+	"emitStatement":    {"emit Ev()", false, "", ""},
+	"log":              {"log(\"x\")", false, "", ""},
+	"localMutate":      {"var t = [1]\nt.append(2)", false, "", ""},
+	"save":             {"%s.storage.save(5, to: /storage/fresh)", false, "", ""},
+	"load":             {"%s.storage.load<Int>(from: /storage/pre)", true, "", ""},
+	"copy":             {"%s.storage.copy<Int>(from: /storage/pre)", true, "", ""},
+	"borrow":           {"%s.storage.borrow<&Int>(from: /storage/pre)", true, "", ""},
+	"check":            {"%s.storage.check<Int>(from: /storage/pre)", true, "", ""},
+	"issue":            {"%s.capabilities.storage.issue<&Int>(/storage/pre)", true, "", ""},
+	"publish":          {"%s.capabilities.publish(%s.capabilities.storage.issue<&Int>(/storage/pre), at: /public/fresh)", false, "", ""},
+	"unpublish":        {"%s.capabilities.unpublish(/public/pre)", true, "", ""},
+}
+
+func applyOp(c *PCase, recv string, asExpr bool) (string, bool) {
+	t, ok := opTmpls[c.Op]
+	if !ok {
+		return "", false
+	}
+	n := strings.Count(t.tmpl, "%s")
+	args := make([]any, n)
+	for i := range args {
+		args[i] = recv
+	}
+	s := fmt.Sprintf(t.tmpl, args...)
+	if asExpr {
+		return s, t.expr
+	}
+	if t.expr {
+		return "let v0 = " + s, true
+	}
+	return s, true
+}
+
+// purBody renders the statements of the view context for a case (site body) or the condition
+// expression (site pre/post). Returns (setup+statement, condition expression).
+func purBody(c *PCase) (body string, cond string, err string) {
+	ty := purTypes[c.TT]
+	var pre []string
+	root := ""
+	isRef := false
+	switch c.Root {
+	case "refparam":
+		root = map[string]string{"S": "s", "A": "a", "D": "d"}[c.TT]
+		isRef = true
+	case "global":
+		root = map[string]string{"S": "P.gS", "A": "P.gA", "D": "P.gD"}[c.TT]
+	case "self":
+		root = map[string]string{"S": "self.hs", "A": "self.ha", "D": "self.hd", "H": "self"}[c.TT]
+	case "refglobal":
+		pre = append(pre, fmt.Sprintf("let rg = &%s as auth(Mutate) &%s", map[string]string{"S": "P.gS", "A": "P.gA", "D": "P.gD"}[c.TT], ty))
+		root, isRef = "rg", true
+	case "valparam":
+		root = map[string]string{"S": "sv", "A": "av", "D": "dv"}[c.TT]
+	case "refval":
+		pre = append(pre, fmt.Sprintf("let rv = &%s as auth(Mutate) &%s", map[string]string{"S": "sv", "A": "av", "D": "dv"}[c.TT], ty))
+		root, isRef = "rv", true
+	case "local", "reflocal":
+		init := map[string]string{"S": "S()", "A": "[1, 2, 3]", "D": "{\"a\": [1]}"}[c.TT]
+		pre = append(pre, fmt.Sprintf("var lo: %s = %s", ty, init))
+		root = "lo"
+		if c.Root == "reflocal" {
+			pre = append(pre, fmt.Sprintf("let rl = &lo as auth(Mutate) &%s", ty))
+			root, isRef = "rl", true
+		}
+	case "account":
+		root = "acct"
+	case "none":
+		root = ""
+	default:
+		return "", "", "unknown root " + c.Root
+	}
+	ot := ty
+	if isRef {
+		ot = "auth(Mutate) &" + ty
+	}
+	if c.Site != "body" {
+		e, ok := applyOp(c, root, true)
+		if !ok || c.Path != "direct" {
+			return "", "", "operation cannot be written as a condition expression"
+		}
+		return strings.Join(pre, "\n"), e, ""
+	}
+	stmt := func(recv string) string {
+		s, _ := applyOp(c, recv, false)
+		return s
+	}
+	var out string
+	switch c.Path {
+	case "direct":
+		out = stmt(root)
+	case "optchain":
+		pre = append(pre, fmt.Sprintf("var o: %s? = %s", ot, root))
+		out = stmt("o?")
+	case "force":
+		pre = append(pre, fmt.Sprintf("var o: %s? = %s", ot, root))
+		out = stmt("o!")
+	case "iflet":
+		pre = append(pre, fmt.Sprintf("var o: %s? = %s", ot, root))
+		out = "if var u = o {\n" + indent(stmt("u"), "  ") + "}"
+	case "wrapper":
+		pre = append(pre, fmt.Sprintf("let w = W(%s)", root))
+		out = stmt("w.r")
+	case "arrayof":
+		pre = append(pre, fmt.Sprintf("var rs: [%s] = [%s]", ot, root))
+		out = stmt("rs[0]")
+	case "closure":
+		out = "let g = fun () {\n" + indent(stmt(root), "  ") + "}\ng()"
+	case "viewclosure":
+		out = "let g = view fun () {\n" + indent(stmt(root), "  ") + "}\ng()"
+	case "derefcopy":
+		pre = append(pre, fmt.Sprintf("var cp = *%s", root))
+		out = stmt("cp")
+	case "boundfn":
+		t := opTmpls[c.Op]
+		if t.method == "" {
+			return "", "", "operation has no bound-function form"
+		}
+		out = fmt.Sprintf("let bf = %s.%s\nbf(%s)", root, t.method, t.args)
+	default:
+		return "", "", "unknown path " + c.Path
+	}
+	pre = append(pre, out)
+	return strings.Join(pre, "\n"), "", ""
+}
+
+const purParams = "s: auth(Mutate) &S, a: auth(Mutate) &[Int], d: auth(Mutate) &{String: [Int]}, sv: S, av: [Int], dv: {String: [Int]}, acct: auth(Storage, Capabilities) &Account"
+const purArgs = "s: &sv0 as auth(Mutate) &S, a: &av0 as auth(Mutate) &[Int], d: &dv0 as auth(Mutate) &{String: [Int]}, sv: sv0, av: av0, dv: dv0, acct: acct"
+
+func purFunction(name string, body, cond, site string, ind string) string {
+	var sb strings.Builder
+	fmt.Fprintf(&sb, "%saccess(all) view fun %s(%s): Int {\n", ind, name, purParams)
+	switch site {
+	case "pre":
+		fmt.Fprintf(&sb, "%s  pre { P.sink(%s) }\n", ind, cond)
+	case "post":
+		fmt.Fprintf(&sb, "%s  post { P.sink(%s) }\n", ind, cond)
+	}
+	sb.WriteString(indent(body, ind+"  "))
+	fmt.Fprintf(&sb, "%s  return 0\n%s}\n", ind, ind)
+	return sb.String()
+}
+
+func purContract(c *PCase) (string, string, string) {
+	body, cond, err := purBody(c)
+	if err != "" {
+		return "", "", err
+	}
+	fBody, fCond, fSite := body, cond, c.Site
+	mBody, mCond, mSite := "", "", "body"
+	call := "let res = self.f(" + purArgs + ")"
+	if c.Root == "self" {
+		fBody, fCond, fSite = "", "", "body"
+		mBody, mCond, mSite = body, cond, c.Site
+		call = "let res = h.vm(" + purArgs + ")"
+	}
+	var sb strings.Builder
+	sb.WriteString(`access(all) contract P {
+  access(all) event Ev()
+  access(all) struct S {
+    access(all) var x: Int
+    access(all) var arr: [Int]
+    access(all) var d: {String: [Int]}
+    init() { self.x = 0; self.arr = [1, 2]; self.d = {"a": [1]} }
+    access(all) fun setX(_ v: Int): Int { self.x = v; return v }
+    access(Mutate) fun mset(_ v: Int): Int { self.x = v; return v }
+    access(all) view fun getX(): Int { return self.x }
+  }
+  access(all) struct W {
+    access(all) let r: auth(Mutate) &S
+    init(_ r: auth(Mutate) &S) { self.r = r }
+  }
+  access(all) var gI: Int
+  access(all) var gS: S
+  access(all) var gA: [Int]
+  access(all) var gD: {String: [Int]}
+  access(all) fun bump(): Int { self.gI = self.gI + 1; return self.gI }
+  access(all) view fun sink(_ x: AnyStruct?): Bool { return true }
+  access(all) struct H {
+    access(all) var hs: S
+    access(all) var ha: [Int]
+    access(all) var hd: {String: [Int]}
+    access(all) var hn: Int
+    init() { self.hs = S(); self.ha = [1, 2, 3]; self.hd = {"a": [1]}; self.hn = 0 }
+`)
+	sb.WriteString(purFunction("vm", mBody, mCond, mSite, "    "))
+	sb.WriteString("  }\n")
+	sb.WriteString(purFunction("f", fBody, fCond, fSite, "  "))
+	sb.WriteString(`  access(all) fun ints(_ xs: [Int]): String {
+    var out = "["
+    for x in xs { out = out.concat(x.toString()).concat(",") }
+    return out.concat("]")
+  }
+  access(all) fun dict(_ d: {String: [Int]}): String {
+    var out = "{"
+    for k in ["a", "b", "c"] { if let v = d[k] { out = out.concat(k).concat(":").concat(self.ints(v)) } }
+    return out.concat("}#").concat(d.length.toString())
+  }
+  access(all) fun str(_ s: S): String {
+    return "S(".concat(s.x.toString()).concat(self.ints(s.arr)).concat(self.dict(s.d)).concat(")")
+  }
+  access(all) fun snap(_ sv0: S, _ av0: [Int], _ dv0: {String: [Int]}, _ h: H): String {
+    return self.str(sv0).concat("|").concat(self.ints(av0)).concat("|").concat(self.dict(dv0))
+      .concat("|H:").concat(h.hn.toString()).concat(self.str(h.hs)).concat(self.ints(h.ha)).concat(self.dict(h.hd))
+      .concat("|G:").concat(self.gI.toString()).concat(self.str(self.gS)).concat(self.ints(self.gA)).concat(self.dict(self.gD))
+  }
+  access(all) fun run(acct: auth(Storage, Capabilities) &Account) {
+    var sv0 = S()
+    var av0 = [1, 2, 3]
+    var dv0: {String: [Int]} = {"a": [1]}
+    var h = H()
+    log(self.snap(sv0, av0, dv0, h))
+`)
+	sb.WriteString("    " + call + "\n")
+	sb.WriteString(`    log(self.snap(sv0, av0, dv0, h))
+  }
+  init() {
+    self.gI = 0
+    self.gS = S()
+    self.gA = [1, 2, 3]
+    self.gD = {"a": [1]}
+  }
+}
+`)
+	shown := body
+	if cond != "" {
+		shown = c.Site + " { P.sink(" + cond + ") }"
+		if body != "" {
+			shown = body + "\n" + shown
+		}
+	}
+	return sb.String(), shown, ""
+}
+
+const purSetupTx = `transaction {
+  prepare(acct: auth(Storage, Capabilities) &Account) {
+    acct.storage.save(7, to: /storage/pre)
+    acct.capabilities.publish(acct.capabilities.storage.issue<&Int>(/storage/pre), at: /public/pre)
+  }
+}`
+
+const purRunTx = `import P from 0x1
+transaction {
+  prepare(acct: auth(Storage, Capabilities) &Account) {
+    P.run(acct: acct)
+  }
+}`
+
+func runPurCase(c *PCase, withSrc bool) PResult {
+	res := PResult{ID: c.ID}
+	src, shown, rerr := purContract(c)
+	res.Body = shown
+	if rerr != "" {
+		res.Fixture = "RENDER: " + rerr
+		return res
+	}
+	if withSrc {
+		res.Src = src
+	}
+	a1 := host.Addr(1)
+	for _, vm := range []bool{false, true} {
+		w := host.NewWorld()
+		err := w.Deploy(a1, "P", src)
+		if err != nil {
+			var errs []error
+			findCheckerErrors(err, &errs, 0)
+			if len(errs) == 0 {
+				res.Fixture = "DEPLOY: " + lastLines(err.Error(), 8)
+				return res
+			}
+			pur, oth := map[string]bool{}, map[string]bool{}
+			for _, e := range errs {
+				t := reflect.TypeOf(e)
+				for t.Kind() == reflect.Ptr {
+					t = t.Elem()
+				}
+				if _, ok := e.(*sema.PurityError); ok {
+					pur[t.Name()] = true
+				} else {
+					oth[t.Name()+": "+firstLine(e.Error())] = true
+				}
+			}
+			res.Purity, res.Other = keys(pur), keys(oth)
+			return res // rejected: the same on both engines (one checker)
+		}
+		res.Accepted = true
+		if r := w.Tx(purSetupTx, []common.Address{a1}, false); r.Err != nil {
+			res.Fixture = "SETUP: " + lastLines(r.Err.Error(), 6)
+			return res
+		}
+		r := w.Tx(purRunTx, []common.Address{a1}, vm)
+		run := PRun{Engine: map[bool]string{false: "interpreter", true: "vm"}[vm], Class: r.Class, Writes: len(r.Writes)}
+		if len(r.Logs) >= 1 {
+			run.Before = r.Logs[0]
+		}
+		if len(r.Logs) >= 2 {
+			run.After = r.Logs[len(r.Logs)-1]
+		}
+		for _, ev := range r.Events {
+			run.Events = append(run.Events, ev.Type)
+		}
+		if r.Err != nil {
+			run.Err = lastLines(r.Err.Error(), 8)
+		}
+		res.Runs = append(res.Runs, run)
+	}
+	return res
+}
+
+func purMain(args []string) {
+	if len(args) < 2 {
+		util.Die("usage: lang pur <cases.ndjson> <results.ndjson> [src]")
+	}
+	withSrc := len(args) > 2
+	var cases []*PCase
+	err := util.ReadLines(args[0], func(line []byte) error {
+		c := &PCase{}
+		if err := json.Unmarshal(line, c); err != nil {
+			return err
+		}
+		cases = append(cases, c)
+		return nil
+	})
+	if err != nil {
+		util.Die("reading cases: %v", err)
+	}
+	results := make([]PResult, len(cases))
+	util.Parallel(len(cases), runtime.NumCPU(), func(i int) {
+		results[i] = runPurCase(cases[i], withSrc)
+	})
+	out := util.NewOut(args[1])
+	for i := range results {
+		out.Write(&results[i])
+	}
+	out.Write(map[string]any{"summary": true, "cases": len(cases)})
+	out.Close()
+}
